@@ -39,7 +39,10 @@ Inductive c17_case :=
     (* as CS, but the session is left through Terminal::run / run_render returning `via` *)
 | CT (requested seen other : N) (last quiet : bool)
 | CO (failed unchanged : bool)
-| CF (drop_ms : N) (restored : bool).
+| CF (drop_ms : N) (restored : bool)
+| CE (winches resizes others : N) (mode_and_restored : bool).
+    (* escape-sequence resize mode (the ioctl gives no pixel size, the terminal answers CSI 18 t / 14 t):
+       every SIGWINCH is answered by at least one Resize event, nothing else shows up; not modelled *)
     (* dropped while the other side keeps typing and never answers the sync request: the wait of
        dispose has an overall deadline (3 s, plus one poll of at most 1 s) *)
     (* SystemTerminal::open made to fail after the tty is known (no descriptors for the sockets): no
@@ -266,6 +269,7 @@ Definition c17_check (c : c17_case) : bool * bool :=
       (true, (1 <=? seen) && (seen <=? requested) && (other =? 0) && last && quiet)
   | CO failed unchanged => (failed, unchanged)
   | CF drop_ms restored => (true, restored && (drop_ms <=? 4000 + slack))
+  | CE winches resizes others ok => (true, ok && (winches <=? resizes) && (others =? 0))
   end.
 
 Definition c17_report := report c17_check.
